@@ -13,7 +13,8 @@ import sys
 from fractions import Fraction
 
 REPO = os.environ.get("VERIF_REPO", "/repo")
-OUT = "/verif/coq/gen/C06_Gen.v"
+OUT = os.environ.get("C06_GEN_OUT", "/verif/coq/gen/C06_Gen.v")   # a drill writes a private copy
+EXTRA_CLASS_FILES = ["autode/opt/coordinates/base.py", "autode/opt/coordinates/dimer.py", "autode/pes/pes_nd.py"]
 
 
 class Untranslatable(Exception):
@@ -260,14 +261,46 @@ def parse_to(src):
                 raise Untranslatable("_to: new units assignment changed")
     if not seen_copy or not steps:
         raise Untranslatable("_to: structure not recognised")
-    # the guard structure (same unit -> identity; lookup by alias in implemented_units; error kinds)
-    body = ast.unparse(fn[0])
-    for needle in ("if value.units == units:\n        return value",
-                   "for imp_unit in value.implemented_units if units.lower() in imp_unit.aliases",
-                   "except StopIteration:\n        raise TypeError",
-                   "return None if inplace else new_value"):
-        if needle not in body:
-            raise Untranslatable(f"_to: guard structure changed (missing `{needle[:50]}`)")
+    # every statement that touches new_value must be one of the TOP-LEVEL statements translated
+    # above: an augmented assignment hidden in a branch (`if value.size > 9: new_value *= ...`)
+    # would otherwise be invisible to the model
+    top_aug = [st for st in fn[0].body if isinstance(st, ast.AugAssign)]
+    all_aug = [st for st in ast.walk(fn[0]) if isinstance(st, ast.AugAssign)]
+    if len(top_aug) != len(all_aug) or len(top_aug) != len(steps):
+        raise Untranslatable("_to: augmented assignment outside the straight-line part")
+    n_assign = sum(1 for st in ast.walk(fn[0]) if isinstance(st, (ast.Assign, ast.AnnAssign))
+                   and any("new_value" in ast.unparse(t) for t in (st.targets if isinstance(st, ast.Assign) else [st.target])))
+    if n_assign != 2:
+        raise Untranslatable("_to: new_value is assigned somewhere else")
+
+    # the whole statement skeleton of _to (guards, lookup, error kinds, order) -- fail closed on any
+    # other top-level statement or a changed order; messages of the raised errors are ignored
+    class _Norm(ast.NodeTransformer):
+        def visit_Raise(self, n):
+            exc = n.exc.func if isinstance(n.exc, ast.Call) else n.exc
+            return ast.Raise(exc=exc, cause=None)
+    skel = []
+    for st in fn[0].body:
+        if isinstance(st, ast.Expr) and isinstance(st.value, ast.Constant) and isinstance(st.value.value, str):
+            continue
+        if isinstance(st, ast.AugAssign):
+            skel.append("AUG")
+            continue
+        skel.append(ast.unparse(ast.fix_missing_locations(_Norm().visit(st))))
+    want = ["if value.units == units:\n    return value",
+            "if value.units is None:\n    raise RuntimeError",
+            "try:\n    units = next((imp_unit for imp_unit in value.implemented_units if units.lower() in imp_unit.aliases))\n"
+            "except StopIteration:\n    raise TypeError",
+            "if not (isinstance(value, Value) or isinstance(value, ValueArray)):\n    raise ValueError",
+            "if isinstance(value, Value) and inplace:\n    raise ValueError",
+            "new_value = value if inplace else value.copy()",
+            "AUG", "AUG",
+            "new_value.units = units",
+            "return None if inplace else new_value"]
+    if skel != want:
+        for i, (a, b) in enumerate(zip(skel + ["<end>"] * len(want), want + ["<end>"] * len(skel))):
+            if a != b:
+                raise Untranslatable(f"_to: statement {i} changed: `{a[:80]}` (expected `{b[:60]}`)")
     return expr, steps
 
 
@@ -279,6 +312,21 @@ def main():
     cenv, corder = parse_constants(csrc)
     units, uorder = parse_units(usrc, cenv)
     classes = parse_classes(vsrc, units, hsrc)
+    # ValueArray subclasses declared elsewhere (appended after the values.py/hessians.py classes so
+    # that existing entries keep their position): optimiser coordinates, dimer coordinates, PES axes
+    for rel in EXTRA_CLASS_FILES:
+        path = os.path.join(REPO, rel)
+        if not os.path.exists(path):
+            continue
+        esrc = open(path).read()
+        for n in ast.walk(ast.parse(esrc)):
+            if isinstance(n, ast.ImportFrom) and n.module == "autode.units" and any(a.asname for a in n.names):
+                raise Untranslatable(f"{rel}: unit imported under another name")
+        have = {c[0] for c in classes}
+        for c in parse_classes(esrc, units):
+            if c[0] in have:
+                raise Untranslatable(f"{rel}: class {c[0]} declared twice")
+            classes.append(c)
     conv_expr, steps = parse_to(vsrc)
     sha = hashlib.sha256((csrc + usrc + vsrc).encode()).hexdigest()
 
